@@ -302,7 +302,88 @@ func (c *ctx) memoLifetime(rfc *fileCtx, rec *ast.FuncDecl, write ast.Node) {
 		}
 	}
 	if memoObj == nil {
-		c.s.Unk("G26", key, c.pos(write), "the memo written here is not a plain variable or parameter")
+		// a field of a search object (`cf.visited`): the memo lives as long as that object; the object must be
+		// built per flow - every composite literal of its type stands in a function that takes the flow
+		var fieldOwner *types.Named
+		var memoField *types.Var
+		var root ast.Expr
+		switch w := write.(type) {
+		case *ast.CallExpr:
+			if se, ok := w.Fun.(*ast.SelectorExpr); ok {
+				root = se.X
+			}
+		case *ast.AssignStmt:
+			for _, l := range w.Lhs {
+				if ix, ok := astx.Unparen(l).(*ast.IndexExpr); ok {
+					root = ix.X
+				}
+			}
+		}
+		if root != nil {
+			if base, f, ok := astx.FieldSel(info, root); ok {
+				memoField = f
+				bt := info.TypeOf(base)
+				if p, ok := bt.(*types.Pointer); ok {
+					bt = p.Elem()
+				}
+				fieldOwner, _ = bt.(*types.Named)
+			}
+		}
+		if fieldOwner == nil || fieldOwner.Obj().Pkg() != c.inter.Types {
+			c.s.Unk("G26", key, c.pos(write), "the memo written here is not a variable, a parameter or a field of a search object of the package")
+			return
+		}
+		lits, bad := 0, ""
+		for _, fc := range c.files {
+			if fc.pkg != c.inter {
+				continue
+			}
+			fc := fc
+			ast.Inspect(fc.file, func(n ast.Node) bool {
+				cl, ok := n.(*ast.CompositeLit)
+				if !ok {
+					return true
+				}
+				t := info.TypeOf(cl)
+				if nt, ok := t.(*types.Named); !ok || nt != fieldOwner {
+					return true
+				}
+				lits++
+				fd := fc.funcDecl(cl)
+				takes := false
+				if fd != nil {
+					for _, f := range fd.Type.Params.List {
+						pt := info.TypeOf(f.Type)
+						if p, ok := pt.(*types.Pointer); ok {
+							pt = p.Elem()
+						}
+						if n, ok := pt.(*types.Named); ok && n.Obj().Name() == "flow" && n.Obj().Pkg() == c.inter.Types {
+							takes = true
+						}
+					}
+				}
+				if !takes {
+					bad = c.pos(cl)
+				}
+				// the memo field must not be filled from outside
+				for _, el := range cl.Elts {
+					if kv, ok := el.(*ast.KeyValueExpr); ok {
+						if id, ok := kv.Key.(*ast.Ident); ok && id.Name == memoField.Name() {
+							bad = c.pos(kv)
+						}
+					}
+				}
+				return true
+			})
+		}
+		switch {
+		case lits == 0:
+			c.s.Unk("G26", key, c.pos(write), "no construction of the search object "+fieldOwner.Obj().Name()+" found")
+		case bad != "":
+			c.s.Bad("G26", key, bad, "the memo of the cycle search is a field of "+fieldOwner.Obj().Name()+", which is built outside the search of one flow (or is handed a memo from outside): it is keyed by type, but whether a type leads into a cycle depends on the flow searched; an entry left by one flow makes the search of a later flow skip a subtree, and a cycle there is not reported")
+		default:
+			c.s.OK("G26", key, c.pos(write), "the memo is a field of "+fieldOwner.Obj().Name()+", built empty in a function that works on one flow")
+		}
 		return
 	}
 	takesFlow := func(fd *ast.FuncDecl) bool {
